@@ -70,6 +70,23 @@ theorem replay_positions_plain (cfg : Cfg K) (p : ProgR K) (hs : p.timeline.Pair
   rw [(replay_positions cfg p hs n hlen a b ha hb capital w r hf h hnb).2 j,
     qsum_eq_plainSum j _ fun x hx => hq x (List.mem_of_mem_filter hx)]
 
+/-- **The timeline does not matter.**  The same frame replayed over two increasing timelines with the same first and last stamp
+    (the dates of the original run and every k-th of them, say - several fills of one name then fall into one window, round trips
+    that net to zero included), from the same initial positions, with any capital each: if both runs complete unflagged they end
+    with the same position in every security.  (What the `replay-coarse` monitor of the C18 check judges on the real code.) -/
+theorem replay_positions_timeline_independent (cfg : Cfg K) (p1 p2 : ProgR K) (hrows : p1.rows = p2.rows)
+    (hs1 : p1.timeline.Pairwise (· < ·)) (hs2 : p2.timeline.Pairwise (· < ·)) (n1 n2 : Nat)
+    (hlen1 : p1.timeline.length = n1 + 1) (hlen2 : p2.timeline.length = n2 + 1) (a b : Int)
+    (ha1 : p1.timeline[0]? = some a) (hb1 : p1.timeline[n1]? = some b)
+    (ha2 : p2.timeline[0]? = some a) (hb2 : p2.timeline[n2]? = some b)
+    (c1 c2 : K) (w r1 r2 : World K) (hf : Flat w)
+    (h1 : btRun cfg (progRunR cfg p1 []) c1 (0 :: List.range' 1 n1) w = .ok r1) (hnb1 : r1.bankrupt = false)
+    (h2 : btRun cfg (progRunR cfg p2 []) c2 (0 :: List.range' 1 n2) w = .ok r2) (hnb2 : r2.bankrupt = false) :
+    ∀ j, posAt r1 j = posAt r2 j := by
+  intro j
+  rw [(replay_positions cfg p1 hs1 n1 hlen1 a b ha1 hb1 c1 w r1 hf h1 hnb1).2 j,
+    (replay_positions cfg p2 hs2 n2 hlen2 a b ha2 hb2 c2 w r2 hf h2 hnb2).2 j, hrows]
+
 /-- **the shadow copy of a blotter-driven sub-strategy** is updated on the synthetic row and gets the loop body
     `update; run; update` on rows `1..n` (`paperLoop`): its positions move by the rows stamped in `(tl[0], tl[n]]` - exactly as
     in the stand-alone backtest of its definition (`replay_positions`); rows stamped at or before the synthetic stamp are never
@@ -111,6 +128,22 @@ example : ∃ r, btRun cfgE (progRunR cfgE progRA []) 1000 (0 :: List.range' 1 3
   simp only [Prod.mk.injEq] at ha
   refine ⟨r, hr, ha.1, ha.2.1, ha.2.2, ?_⟩
   exact replay_positions_plain cfgE progRA tlE_increasing 3 rfl 0 30 rfl rfl (by decide +kernel) 1000 wRA r wRA_flat hr ha.1
+
+/-- the same frame on the coarse timeline 0 < 30 (one window holding all the executed rows: two fills of `x`, one of `y`):
+    completes unflagged and ends, by the theorem, with the positions of the run over 0 < 10 < 20 < 30 -/
+example : ∃ r1 r2, btRun cfgE (progRunR cfgE progRA []) 1000 (0 :: List.range' 1 3) wRA = .ok r1 ∧
+    btRun cfgE (progRunR cfgE { progRA with timeline := [0, 30] } []) 1000 (0 :: List.range' 1 1) wRA = .ok r2 ∧
+    (∀ j, posAt r1 j = posAt r2 j) ∧ posAt r2 0 = 4 ∧ posAt r2 1 = 3 := by
+  have hA : (btRun cfgE (progRunR cfgE progRA []) 1000 (0 :: List.range' 1 3) wRA).toOption.map
+      (fun r => r.bankrupt) = some false := by decide +kernel
+  have hB : (btRun cfgE (progRunR cfgE { progRA with timeline := [0, 30] } []) 1000 (0 :: List.range' 1 1) wRA).toOption.map
+      (fun r => (r.bankrupt, posAt r 0, posAt r 1)) = some (false, 4, 3) := by decide +kernel
+  obtain ⟨r1, hr1, ha1⟩ := P16.exists_of_toOption_map hA
+  obtain ⟨r2, hr2, ha2⟩ := P16.exists_of_toOption_map hB
+  simp only [Prod.mk.injEq] at ha2
+  exact ⟨r1, r2, hr1, hr2,
+    replay_positions_timeline_independent cfgE progRA { progRA with timeline := [0, 30] } rfl tlE_increasing (by decide) 3 1 rfl rfl
+      0 30 rfl rfl rfl rfl 1000 1000 wRA r1 r2 wRA_flat hr1 ha1 hr2 ha2.1, ha2.2.1, ha2.2.2⟩
 
 /-- what the theorem predicts, computed from the frame alone -/
 example : posAt wRA 0 + plainSum 0 (progRA.rows.filter fun x => decide (0 < x.1 ∧ x.1 ≤ 30)) = (4 : Rat) ∧
